@@ -638,7 +638,7 @@ def c13_cases(tier, seed):
     for nlen, pad in ((65533, 0), (65534, 0), (65400, 100), (65000, 126), (65279, 127)):
         cs.append(Case("<r x='1' " + "a" * nlen + " " * pad + "=" + " " * pad + "'value'/>", "p", True, meta={"gen": "qname-below-sat", "name_len": nlen, "pad": pad}))
     cs.append(Case("<r a" + " " * 300 + "='v'/>", "p", True, meta={"gen": "eq-sat"}))
-    cs += gens.g_long(flags="ncpb")
+    cs += gens.g_long(flags="ncpb") + gens.g_long_prefix_then_ref(flags="ncpb")
     rnd = random.Random(seed + 3)
     more = gens.g_pieces_text(3, positions=(0, 1))
     cs += [Case(c.data, "ncpb", True, meta=c.meta) for c in rnd.sample(more, min(len(more), 3000 if q else 20000))]
@@ -987,7 +987,7 @@ def c18_cases(tier, seed):
     cs += [Case(c.data, "ncb", True, meta=c.meta) for c in rnd.sample(more, min(len(more), 3000 if q else 20000))]
     more = gens.g_pieces_attr(3)
     cs += [Case(c.data, "ncb", True, meta=c.meta) for c in rnd.sample(more, min(len(more), 2000 if q else 8000))]
-    cs += gens.g_utf8_bytes(flags="ncb") + gens.g_cr_in_misc(flags="ncb") + gens.g_borrow_after(flags="ncb")
+    cs += gens.g_utf8_bytes(flags="ncb") + gens.g_cr_in_misc(flags="ncb") + gens.g_borrow_after(flags="ncb") + gens.g_long_prefix_then_ref(flags="ncb")
     # fast-path families
     for body, borrowed in (("plain text", True), ("two\nlines\ttab", True), ("a&amp;b", False), ("a\rb", False), ("a\r\nb", False), ("é中", True), ("a&#65;", False)):
         cs.append(Case("<r>" + body + "</r>", "ncb", True, meta={"gen": "fast-text", "expect_borrowed_text": borrowed, "text_node": 2}))
